@@ -468,6 +468,31 @@ func facts() map[string]any {
 		out["edns_"+strings.ToLower(fn)+"_slot_unreset"] = left
 	}
 
+	// --- chain pool: one NewChain, one PutChain per decoded entry
+	countCalls := func(fd *ast.FuncDecl, name string) int {
+		n := 0
+		if fd == nil {
+			return -1
+		}
+		ast.Inspect(fd.Body, func(x ast.Node) bool {
+			if c, ok := x.(*ast.CallExpr); ok {
+				if sel, ok := c.Fun.(*ast.SelectorExpr); ok && sel.Sel.Name == name {
+					n++
+				}
+			}
+			return true
+		})
+		return n
+	}
+	out["servemsgby_newchain_calls"] = countCalls(srv.method("Server", "serveMsgBy"), "NewChain")
+	out["servemsgby_putchain_calls"] = countCalls(srv.method("Server", "serveMsgBy"), "PutChain")
+	out["queryer_newchain_calls"] = countCalls(mw.method("pipelineQueryer", "Query"), "NewChain")
+	out["queryer_putchain_calls"] = countCalls(mw.method("pipelineQueryer", "Query"), "PutChain")
+
+	for _, fn := range []string{"ServeRaw", "ServeRawInline", "ServeRawReplay"} {
+		out["carrier_reset_in_"+strings.ToLower(fn)] = countCalls(srv.method("Server", fn), "reset")
+	}
+
 	// --- capacity pinning shapes
 	out["beginwire_pins_capacity"] = hasFullSliceExpr(mw.method("responseWriter", "BeginWire"), "need")
 	out["trypack_pins_capacity"] = hasFullSliceExpr(wr.function("TryPack"), "")
